@@ -686,6 +686,9 @@ class AmpBox(Dict[bytes, bytes]):
                 raise TypeError("Unicode key not allowed: %r" % k)
             if type(v) == str:
                 raise TypeError(f"Unicode value for key {k!r} not allowed: {v!r}")
+            if len(k) == 0:
+                # A zero key length is the box terminator on the wire.
+                raise MalformedAmpBox(f"Empty key (for value {v!r}) not allowed")
             if len(k) > MAX_KEY_LENGTH:
                 raise TooLong(True, True, k, None)
             if len(v) > MAX_VALUE_LENGTH:
